@@ -25,6 +25,8 @@ func main() {
 		text = textSites(repo)
 	case "sections":
 		text = sections(repo)
+	case "taggers":
+		text = taggers(repo)
 	default:
 		die("unknown translator %q", name)
 	}
